@@ -175,7 +175,7 @@ CHECKS = {
             "attributed to the known untyped-wrapping-i64 evaluation of `cexpr` only when bindgen's value equals the M64 reference "
             "evaluator's prediction for that expression.",
             "Expressions clang diagnoses (overflow, bad shifts, division by zero) are excluded; float macros are not value-checked; "
-            "depth-2 expressions of the design are not generated.",
+            "depth-2 expressions over a 6-literal alphabet x all operator pairs in the thorough tier (154 k macros).",
             "6/C05"),
     "C09": ("exploration",
             "exhaustive enumeration of dependency graphs (every 3-node chain over 6 node kinds x edge kinds, diamonds, pointer "
